@@ -62,6 +62,16 @@ def run(prop, prop_file, specs, oracles, trusted, rule, extra=None, level="proof
                 impl.pop(cid, None)
                 model.pop(cid, None)
                 cases = [c for c in cases if harness.case_id(c) != cid]
+            for cid in crashed:
+                meta, kw = metas[cid]
+                line = [c for c in cases if harness.case_id(c) == cid][0]
+                found_any = True
+                rep.violation({"property": prop, "case": line, "meta": meta,
+                               "observed": "the implementation's process died instead of returning: %s" % (impl.get(cid) or ["?"])[0][:200]},
+                              found=True, key="%s:crash:%s" % (meta["method"], meta["family"]))
+                impl.pop(cid, None)
+                model.pop(cid, None)
+                cases = [c for c in cases if harness.case_id(c) != cid]
             for cid in mhung:
                 model.pop(cid, None)
                 if cid in impl:
